@@ -90,7 +90,7 @@ class Check(RuntimeCheck):
     def run(self, tier, seed, replay=None):
         # generate the relational families as one extra batch through `exhaustive`
         n = 1200 if tier == 'quick' else 25000
-        prof = Profile(methods=[0, 1, 2, 3, 4, 5], max_segs=2, max_count=2, arg_domain=4, dbg_chance=(0, 1))
+        prof = Profile(methods=[0, 1, 2, 3, 4, 5], max_segs=2, max_count=2, arg_domain=4, dbg_chance=(0, 1), park_weight=3)
         rng = Rng(seed * 7919 + 11)
         fams = []
         for k in range(n):
@@ -98,7 +98,7 @@ class Check(RuntimeCheck):
         text = ''.join(fams)
         self.exhaustive = lambda t: [('families', text)]
         rnd = 1500 if tier == 'quick' else 30000
-        self.profiles = lambda t: [('r', Profile(clones=2, threads=1, max_terms=6, end='mixed'), rnd)]
+        self.profiles = lambda t: [('r', Profile(clones=2, threads=1, max_terms=6, end='mixed', park_weight=2), rnd)]
         return super().run(tier, seed, replay)
 
     def primary(self, text, real_lines):
